@@ -69,6 +69,15 @@ class Facts:
         except Exception as e:
             self.devirt_error = '%s: %s' % (type(e).__name__, e)
         try:
+            self.enum_specialised = 0
+            for _round in range(3):
+                n_ = specialise_on_enum_consts(self)
+                self.enum_specialised += n_
+                if not n_:
+                    break
+        except Exception as e:
+            self.enum_spec_error = '%s: %s' % (type(e).__name__, e)
+        try:
             self.ctor_inlined = inline_trivial_constructors(self)
         except Exception as e:
             self.ctor_error = '%s: %s' % (type(e).__name__, e)
@@ -1192,6 +1201,15 @@ class PathWalker:
                     env[pat['id']] = ('closure', strip_refs(s['init'])['def'])
                 elif pat.get('k') == 'bind' and 'init' in s and pat.get('mode', '').endswith('Not)'):
                     env[pat['id']] = hcanon(s['init'], env)
+                elif pat.get('k') == 'tuple' and 'init' in s and 'else' not in s:
+                    # `let (a, b) = (x, y);` binds component-wise
+                    ini = strip_refs(s['init'])
+                    while ini.get('k') == 'block' and not ini.get('stmts') and ini.get('tail') is not None:
+                        ini = strip_refs(ini['tail'])
+                    if ini.get('k') == 'tup' and len(ini.get('xs', [])) == len(pat.get('pats', [])):
+                        for sp, x in zip(pat['pats'], ini['xs']):
+                            if sp.get('k') == 'bind' and sp.get('mode', '').endswith('Not)') and 'sub' not in sp:
+                                env[sp['id']] = hcanon(x, env)
             else:
                 e = s['e']
                 self.expr(e, conds, env)
@@ -1669,10 +1687,74 @@ def inline_mir(mir, facts, owner, pick, depth=3):
         blk['stmts'] = stmts
         blk['term'] = {'k': 'goto', 'target': boff, 'line': t['line'], 'exp': False, 'inlined_call': g.path}
         inlined.append(g.path)
+        if direct:
+            _thread_try(blocks, t['dest']['l'], t['target'], range(boff, len(blocks)))
     out = dict(mir)
     out['blocks'] = blocks
     out['locals'] = locals_
     return out, inlined
+
+
+def _thread_try(blocks, d, cont, region):
+    """After inlining a Result-returning callee whose value `_d` is consumed by `?` right away --
+         cont:  _c = Try::branch(move _d) -> sw;   sw: _x = discriminant(_c); switchInt(_x) [0 -> ok, 1 -> err]
+    -- the blocks of the inlined body that end by building `_d = Ok(..)` / `_d = Err(..)` know which way the switch goes.
+    They get their own copy of (cont, sw) whose switch is a goto, so that dominance-based rules see that the failing paths of
+    the helper never reach the caller's success path (jump threading; nothing is removed, only edges become precise)."""
+    if cont is None or cont >= len(blocks):
+        return
+    cb = blocks[cont]
+    ct = cb['term']
+    if ct['k'] != 'call' or (ct['callee'].get('decl') or ct['callee'].get('path')) not in ('std::ops::Try::branch',) and not (ct['callee'].get('path') or '').endswith('Try>::branch'):
+        return
+    if [st for st in cb['stmts'] if st['k'] not in ('storage_live', 'storage_dead', 'nop')]:
+        return
+    a = op_place(ct['args'][0]) if ct['args'] else None
+    if a != {'l': d, 'p': []} or ct.get('target') is None or ct['dest']['p']:
+        return
+    sw = blocks[ct['target']]
+    st_ = sw['term']
+    live = [x for x in sw['stmts'] if x['k'] not in ('storage_live', 'storage_dead', 'nop')]
+    if st_['k'] != 'switch' or len(live) != 1 or live[0]['k'] != 'assign' or live[0]['rv'].get('k') != 'discr' or live[0]['rv']['place'] != {'l': ct['dest']['l'], 'p': []}:
+        return
+    if op_place(st_['discr']) != {'l': live[0]['lhs']['l'], 'p': []}:
+        return
+    tg = dict((v, b) for v, b in st_['targets'])
+    if 0 not in tg or 1 not in tg:
+        return
+    made = {}
+
+    def copy_pair(kind):
+        if kind in made:
+            return made[kind]
+        c2 = {'cleanup': False, 'stmts': [], 'term': dict(ct, target=len(blocks) + 1), 'threaded': kind}
+        s2 = {'cleanup': False, 'stmts': list(sw['stmts']), 'term': {'k': 'goto', 'target': tg[0 if kind == 'Ok' else 1], 'line': st_['line'], 'exp': False, 'threaded': kind}}
+        blocks.append(c2)
+        blocks.append(s2)
+        made[kind] = len(blocks) - 2
+        return made[kind]
+
+    def reaches_cont(b, seen=()):
+        """b leads to cont through empty goto blocks only"""
+        if b == cont:
+            return True
+        if b in seen or b >= len(blocks):
+            return False
+        bb = blocks[b]
+        if bb['term']['k'] != 'goto' or [x for x in bb['stmts'] if x['k'] not in ('storage_live', 'storage_dead', 'nop')]:
+            return False
+        return reaches_cont(bb['term']['target'], seen + (b,))
+    for bi in list(region):
+        bb = blocks[bi]
+        if bb.get('cleanup') or bb['term']['k'] != 'goto':
+            continue
+        kind = None
+        for x in bb['stmts']:
+            if x['k'] == 'assign' and x['lhs'] == {'l': d, 'p': []}:
+                rv = x['rv']
+                kind = rv.get('variant') if (rv.get('k') == 'agg' and rv.get('adt') == 'std::result::Result') else None
+        if kind in ('Ok', 'Err') and reaches_cont(bb['term']['target']):
+            bb['term'] = dict(bb['term'], target=copy_pair(kind), threaded_from=bb['term']['target'])
 
 
 def inlined_fn(facts, path, pick, tag='inl'):
@@ -1972,6 +2054,52 @@ def model_std_calls(mir, facts=None, owner=None):
         blocks.append({'cleanup': False, 'stmts': [mk(k='assign', lhs=t['dest'], rv=none_rv)], 'term': mk(k='goto', target=t['target'])})
         blocks[bi] = dict(blocks[bi])
         blocks[bi]['term'] = mk(k='goto', target=H, modelled='Iterator::find_map')
+        tmp = dict(mir)
+        tmp['blocks'], tmp['locals'] = blocks, locals_
+        tmp2, inl = inline_mir(tmp, facts, owner or '?', lambda g_, t_, gp=g.path: g_.path == gp, depth=1)
+        blocks, locals_ = tmp2['blocks'], tmp2['locals']
+        src_blocks = blocks
+    # ---- `cond.then(|| e)`: `if cond { Some(e) } else { None }` with the closure's body in place
+    src_blocks = blocks if blocks is not None else mir['blocks']
+    for bi in range(len(src_blocks)):
+        blk = src_blocks[bi]
+        t = blk['term']
+        if t['k'] != 'call' or blk.get('cleanup') or t.get('target') is None or facts is None or len(t['args']) != 2:
+            continue
+        if not re.search(r'bool>?::then$', t['callee'].get('path') or ''):
+            continue
+        clp = op_place(t['args'][1])
+        if clp is None or clp['p']:
+            continue
+        cdef = None
+        for b2 in src_blocks:
+            for st in b2['stmts']:
+                if st['k'] == 'assign' and st['lhs']['l'] == clp['l'] and not st['lhs']['p'] and st['rv']['k'] == 'agg' and st['rv'].get('agg') == 'closure':
+                    cdef = st['rv'].get('closure') if cdef is None else False
+        g = facts.fns.get(cdef) if cdef else None
+        if g is None or g.body.mir['arg_count'] != 1:
+            continue
+        if blocks is None:
+            blocks = [dict(b) for b in mir['blocks']]
+            locals_ = list(mir['locals'])
+        line = t['line']
+        mk = lambda **kw: dict({'line': line, 'exp': False}, **kw)
+        L_v, L_c = len(locals_), len(locals_) + 1
+        locals_ += [{'ty': g.body.mir['locals'][0]['ty'], 'user': False, 'mut': False, 'modelled': 'bool::then'},
+                    {'ty': g.body.mir['locals'][1]['ty'], 'user': False, 'mut': False}]
+        C, S, N = len(blocks), len(blocks) + 1, len(blocks) + 2
+        by_ref = g.body.mir['locals'][1]['ty'].startswith('&')
+        cref_rv = {'k': 'ref', 'mut': True, 'place': {'l': clp['l'], 'p': []}} if by_ref else {'k': 'use', 'op': {'move': {'l': clp['l'], 'p': []}}}
+        blocks.append({'cleanup': False, 'stmts': [mk(k='assign', lhs={'l': L_c, 'p': []}, rv=cref_rv)],
+                       'term': mk(k='call', callee={'path': g.path, 'key': g.path, 'local': True, 'crate': facts.crate}, args=[{'move': {'l': L_c, 'p': []}}],
+                                  dest={'l': L_v, 'p': []}, target=S, fn_line=line)})
+        some_rv = {'k': 'agg', 'agg': 'adt', 'adt': 'std::option::Option', 'variant': 'Some', 'vi': 1, 'adt_args': [], 'fields': ['0'], 'ops': [{'move': {'l': L_v, 'p': []}}]}
+        none_rv = {'k': 'agg', 'agg': 'adt', 'adt': 'std::option::Option', 'variant': 'None', 'vi': 0, 'adt_args': [], 'fields': [], 'ops': []}
+        blocks.append({'cleanup': False, 'stmts': [mk(k='assign', lhs=t['dest'], rv=some_rv)], 'term': mk(k='goto', target=t['target'])})
+        blocks.append({'cleanup': False, 'stmts': [mk(k='assign', lhs=t['dest'], rv=none_rv)], 'term': mk(k='goto', target=t['target'])})
+        nb = dict(blocks[bi])
+        nb['term'] = mk(k='switch', discr=t['args'][0], targets=[[0, N]], otherwise=C, modelled='bool::then')
+        blocks[bi] = nb
         tmp = dict(mir)
         tmp['blocks'], tmp['locals'] = blocks, locals_
         tmp2, inl = inline_mir(tmp, facts, owner or '?', lambda g_, t_, gp=g.path: g_.path == gp, depth=1)
@@ -2637,6 +2765,211 @@ def inline_unit_tries(hir, facts, depth=0, counter=None):
             return rec_block(n)
         return {k: (rec(v) if isinstance(v, (dict, list)) else v) for k, v in n.items()}
     return rec(hir)
+
+
+def _subst_local_hir(n, lid, repl):
+    if isinstance(n, list):
+        return [_subst_local_hir(x, lid, repl) for x in n]
+    if not isinstance(n, dict):
+        return n
+    if n.get('k') == 'path' and n.get('res') == 'local' and n.get('id') == lid:
+        return dict(repl)
+    return {k: (_subst_local_hir(v, lid, repl) if isinstance(v, (dict, list)) else v) for k, v in n.items()}
+
+
+def specialise_on_enum_consts(facts):
+    """`fn add_shard(&mut self, kind: ShardKind, ..)` with `match kind { Original => .., Recovery => .. }` inside, called only
+    with literal variants of a private field-less enum, is the pair `add_shard#Original` / `add_shard#Recovery` it was folded
+    from: one copy per variant used, the `match`es on the parameter resolved (HIR: the arm's body; MIR: the discriminant read
+    becomes the constant and the switch a goto), every call site pointed at its copy.  The generic original is dropped when no
+    other use remains."""
+    enums = {}
+    for ap, a in facts.adts.items():
+        if a.get('kind') == 'enum' and not a.get('reachable') and a.get('variants') and all(not v.get('fields') for v in a['variants']):
+            enums[ap] = [v['name'] for v in a['variants']]
+    if not enums:
+        return 0
+    sites = defaultdict(list)
+    for f in facts.fns.values():
+        for b, t in f.body.calls():
+            q = t['callee'].get('path')
+            if q in facts.fns and t['callee'].get('local'):
+                sites[q].append((f, b, t))
+    made = 0
+    for gp, g in sorted(list(facts.fns.items())):
+        if g.reachable or g.impl_trait or g.in_trait or g.kind not in ('Fn', 'AssocFn') or not g.hir or not sites.get(gp) or g.x.get('mono_of'):
+            continue
+        mir = g.body.mir
+        eparams = [i for i in range(1, mir['arg_count'] + 1) if mir['locals'][i]['ty'] in enums and i not in (g.x.get('specialised_params') or [])]
+        if len(eparams) != 1 or len(g.hir.get('params', [])) != mir['arg_count']:
+            continue
+        pi = eparams[0]
+        E = mir['locals'][pi]['ty']
+        ppat = g.hir['params'][pi - 1]
+        if ppat.get('k') != 'bind' or not ppat.get('mode', '').endswith('Not)'):
+            continue
+        # the parameter is only ever matched on / its discriminant read
+        # the parameter is only matched on (discriminant reads) or handed on by value (whole-local copies / moves)
+        only_discr = True
+
+        def scan_uses(n, ctx_key=None):
+            nonlocal only_discr
+            if isinstance(n, list):
+                for x_ in n:
+                    scan_uses(x_, ctx_key)
+            elif isinstance(n, dict):
+                if n.get('l') == pi and 'p' in n and isinstance(n['p'], list):
+                    if n['p'] or ctx_key not in ('copy', 'move', 'discr_place'):
+                        only_discr = False
+                    return
+                for k_, v_ in n.items():
+                    if isinstance(v_, (dict, list)):
+                        scan_uses(v_, 'discr_place' if (k_ == 'place' and n.get('k') == 'discr') else k_)
+        for blk in mir['blocks']:
+            for st in blk['stmts']:
+                if st['k'] in ('storage_live', 'storage_dead'):
+                    continue
+                if st['k'] == 'assign' and st['lhs'].get('l') == pi:
+                    only_discr = False
+                scan_uses(st.get('rv'))
+                if st['k'] == 'assign' and st['lhs'].get('p'):
+                    scan_uses(st['lhs']['p'])
+            tm = blk['term']
+            scan_uses(tm.get('args', []))
+            scan_uses(tm.get('discr', {}))
+            if tm.get('dest', {}).get('l') == pi:
+                only_discr = False
+        if not only_discr:
+            continue
+        # every call site passes a literal variant
+        variants = {}
+        okk = True
+        for (f, b, t) in sites[gp]:
+            if len(t['args']) != mir['arg_count']:
+                okk = False
+                break
+            pl = op_place(t['args'][pi - 1])
+            v = None
+            hops = 0
+            while pl is not None and not pl['p'] and hops < 5:
+                hops += 1
+                ds = [d for d in f.body.defs().get(pl['l'], []) if d[0] == 'stmt']
+                if len(ds) != 1 or len(f.body.defs().get(pl['l'], [])) != 1:
+                    break
+                rv = f.body.blocks[ds[0][1]]['stmts'][ds[0][2]]['rv']
+                if rv['k'] == 'agg' and rv.get('adt') == E and not rv.get('ops'):
+                    v = (rv['variant'], rv['vi'])
+                    break
+                pl = op_place(rv['op']) if rv['k'] == 'use' else None
+            if v is None:
+                okk = False
+                break
+            variants[(f.path, b)] = v
+        if not okk or not variants:
+            continue
+
+        def spec_hir(n, vname):
+            if isinstance(n, list):
+                return [spec_hir(x, vname) for x in n]
+            if not isinstance(n, dict):
+                return n
+            out = {k: (spec_hir(v, vname) if isinstance(v, (dict, list)) else v) for k, v in n.items()}
+            if out.get('k') == 'match' and not str(out.get('source', '')).startswith(('TryDesugar', 'ForLoopDesugar')):
+                sc = strip_refs(out['scrut'])
+                if sc.get('k') == 'path' and sc.get('res') == 'local' and sc.get('id') == ppat['id']:
+                    for a in out['arms']:
+                        pt = a['pat']
+                        pth = (pt.get('path') or {}).get('path') if isinstance(pt.get('path'), dict) else pt.get('path')
+                        if 'guard' in a:
+                            return out
+                        if pt.get('k') == 'wild' or (pt.get('k') in ('patexpr', 'path') and pth == '%s::%s' % (E, vname)):
+                            return a['body']
+            return out
+        for vname, vi in sorted(set(variants.values())):
+            x = copy.deepcopy({k: v for k, v in g.x.items()})
+            x['path'] = '%s#%s' % (gp, vname)
+            x['specialised_from'] = gp
+            x['specialised_params'] = list(g.x.get('specialised_params') or []) + [pi]
+            x['hir'] = spec_hir(x['hir'], vname)
+            vpath = {'k': 'path', 'res': 'def', 'def_kind': 'Ctor(Variant, Const)', 'path': '%s::%s' % (E, vname), 'local': True, 'ty': E}
+            x['hir'] = dict(x['hir'], value=_subst_local_hir(x['hir']['value'], ppat['id'], vpath))
+            ctmp = len(x['mir']['locals'])
+            x['mir']['locals'].append({'ty': E, 'user': False, 'mut': False, 'specialised_const': vname})
+
+            def rewrite_ops(n):
+                if isinstance(n, list):
+                    return [rewrite_ops(y_) for y_ in n]
+                if isinstance(n, dict):
+                    for key_ in ('copy', 'move'):
+                        if key_ in n and isinstance(n[key_], dict) and n[key_].get('l') == pi and not n[key_].get('p'):
+                            return {'copy': {'l': ctmp, 'p': []}}
+                    return {k_: (rewrite_ops(v_) if isinstance(v_, (dict, list)) else v_) for k_, v_ in n.items()}
+                return n
+            for blk in x['mir']['blocks']:
+                blk['stmts'] = [(dict(st, rv=rewrite_ops(st['rv'])) if st['k'] == 'assign' and st['rv'].get('k') != 'discr' else st) for st in blk['stmts']]
+                if 'args' in blk['term']:
+                    blk['term'] = dict(blk['term'], args=rewrite_ops(blk['term']['args']))
+            b0 = x['mir']['blocks'][0]
+            b0['stmts'] = [{'k': 'assign', 'lhs': {'l': ctmp, 'p': []}, 'rv': {'k': 'agg', 'agg': 'adt', 'adt': E, 'variant': vname, 'vi': vi, 'adt_args': [], 'fields': [], 'ops': []},
+                            'line': b0['term'].get('line'), 'exp': False, 'specialised': True}] + list(b0['stmts'])
+            for blk in x['mir']['blocks']:
+                for st in blk['stmts']:
+                    if st['k'] == 'assign' and st['rv'].get('k') == 'discr' and st['rv']['place'] == {'l': pi, 'p': []}:
+                        st['rv'] = {'k': 'use', 'op': {'const': {'ty': 'isize', 'val': vi}}}
+                        dl = st['lhs']['l'] if not st['lhs']['p'] else None
+                        t = blk['term']
+                        if dl is not None and t['k'] == 'switch' and op_place(t['discr']) == {'l': dl, 'p': []}:
+                            tgt = [tg for (val, tg) in t['targets'] if val == vi]
+                            blk['term'] = {'k': 'goto', 'target': tgt[0] if tgt else t['otherwise'], 'line': t['line'], 'exp': False, 'specialised': True}
+            # arms that can no longer be reached assign nothing (their definitions would blur single-definition lookups)
+            succ = lambda bb_: ([bb_['term'].get('target')] if bb_['term'].get('target') is not None else []) + [tg for (_, tg) in bb_['term'].get('targets', [])] \
+                + ([bb_['term']['otherwise']] if bb_['term'].get('otherwise') is not None else []) + ([bb_['term']['unwind']] if isinstance(bb_['term'].get('unwind'), int) else []) \
+                + ([bb_['term']['cleanup']] if isinstance(bb_['term'].get('cleanup'), int) else [])
+            seen_, todo_ = {0}, [0]
+            while todo_:
+                for nx in succ(x['mir']['blocks'][todo_.pop()]):
+                    if isinstance(nx, int) and nx not in seen_ and 0 <= nx < len(x['mir']['blocks']):
+                        seen_.add(nx)
+                        todo_.append(nx)
+            for bi_, bb_ in enumerate(x['mir']['blocks']):
+                if bi_ not in seen_ and not bb_.get('cleanup'):
+                    bb_['stmts'] = []
+                    bb_['term'] = {'k': 'unreachable', 'line': bb_['term'].get('line'), 'exp': False}
+            facts.fns[x['path']] = Fn(facts, x)
+            made += 1
+            # the instance-level call graph knows the copy under its own name
+            for ik, rec in list(facts.instances.items()):
+                if rec.get('def') == gp:
+                    r2 = copy.deepcopy(rec)
+                    r2['def'] = x['path']
+                    facts.instances[ik.replace(gp, x['path'], 1) if gp in ik else x['path']] = r2
+        for (f, b, t) in sites[gp]:
+            vname = variants[(f.path, b)][0]
+            t['callee'] = dict(t['callee'], path='%s#%s' % (gp, vname), key='%s#%s' % (gp, vname), specialised_from=gp)
+            for rec in facts.instances.values():
+                if rec.get('def') == f.path and str(b) in rec.get('calls', {}):
+                    c0 = rec['calls'][str(b)]
+                    if c0.get('path') == gp:
+                        rec['calls'][str(b)] = dict(c0, path='%s#%s' % (gp, vname), key=(c0.get('key') or gp).replace(gp, '%s#%s' % (gp, vname), 1))
+            if f.hir:
+                def visit(nd, parents):
+                    if nd.get('k') in ('mcall', 'call'):
+                        pth = nd.get('path') if nd.get('k') == 'mcall' else (nd['f'].get('path') if isinstance(nd.get('f'), dict) else None)
+                        if pth != gp:
+                            return
+                        args = ([nd['recv']] + list(nd['args'])) if nd.get('k') == 'mcall' else list(nd['args'])
+                        if len(args) >= pi:
+                            a = strip_refs(args[pi - 1])
+                            if a.get('k') == 'path' and (a.get('path') or '').startswith(E + '::'):
+                                vn = a['path'][len(E) + 2:]
+                                if nd.get('k') == 'mcall':
+                                    nd['path'] = '%s#%s' % (gp, vn)
+                                else:
+                                    nd['f'] = dict(nd['f'], path='%s#%s' % (gp, vn))
+                hir_walk(f.hir, visit)
+        dict.__delitem__(facts.fns, gp)
+    facts._cg = None
+    return made
 
 
 # --------------------------------------------------------------------------- private parameter structs
